@@ -150,6 +150,13 @@ impl Shared {
         None
     }
 
+    /// verif hook: run one freeze pass synchronously (the production pass is private and
+    /// timer-driven on its own thread).
+    #[cfg(feature = "verif-hooks")]
+    pub fn verif_freeze_once(&self) -> Result<(), Error> {
+        self.freeze()
+    }
+
     fn freeze(&self) -> Result<(), Error> {
         let freezer = self.store.freezer().expect("freezer inited");
         let snapshot = self.snapshot();
